@@ -33,8 +33,9 @@ print(json.dumps({"checked": n, "bad": bad}))
 def run(ctx):
     ctx.level = "model_checking"
     ctx.rule = ("cases = argument tuples (N, r, p, keyLen) enumerated by TLC from KdfScrypt_MC: N in {-4,0,1,2,3,4,6,16,1024} x r,p in -2..8 (quick: {-2,-1,0,1,2,5,8}) x "
-                "keyLen in {-5,-1,0,1,31,32,33,64,65,300}, plus boundary classes 2^k+d around 2^15, 2^24, 2^29..2^30, 2^32, 2^54..2^56, 2^62, 2^63-1 "
-                "for N, r, p with keyLen in {-1,0,32}; each non-excluded tuple run on the real scrypt.Key with a seeded password/salt "
+                "keyLen in {-5,-1,0,1,31,32,33,64,65,300}, plus guard-product classes 2^k+d around 2^15, 2^24, 2^29..2^30, 2^32, 2^54..2^56, 2^62, 2^63-1 "
+                "for N, r, p with keyLen in {-1,0,32}, plus the machine-integer boundary menu {MinInt, MinInt+1, MinInt/2, -2^32, -2^31, -1, 0, 1, 2, 3, MaxInt32, 2^31, 2^32, 2^62, "
+                "MaxInt-1, MaxInt} for N x (quick: 8 of them, thorough: all 16) for r and p x keyLen in {MinInt, -1, 0, 32, MaxInt}; each non-excluded tuple run on the real scrypt.Key with a seeded password/salt "
                 "(lengths 0..200); distinct = distinct (N,r,p,keyLen); tuples the model classifies as memory-exhausting (>128 MiB) are outside "
                 "the property and not run, valid tuples with N*r*p > 2^20 are model-checked but not run (time)")
     ctx.assumptions = [
@@ -46,11 +47,15 @@ def run(ctx):
     jobs = {
         "small": dict(cfg=ctx.pick("KdfScrypt_SmallQ.cfg", "KdfScrypt_Small.cfg"), workers=ctx.pick(5, 8), note="small class product: transcription vs property table (repaired code) + case emission"),
         "big": dict(cfg=ctx.pick("KdfScrypt_BigQ.cfg", "KdfScrypt_Big.cfg"), workers=ctx.pick(5, 8), note="2^30 / overflow boundary classes (64-bit int) + case emission"),
+        "bnd": dict(cfg=ctx.pick("KdfScrypt_BndQ.cfg", "KdfScrypt_Bnd.cfg"), workers=ctx.pick(5, 8),
+                    note="machine-integer boundary values (MinInt, MinInt+1, MinInt/2, -2^32, -2^31, -1..3, MaxInt32, 2^31, 2^32, 2^62, MaxInt-1, MaxInt) "
+                         "for N, r, p, keyLen + case emission"),
         "cur": dict(cfg="KdfScrypt_SmallCur.cfg", workers=1, expect_violation=True,
                     note="code as found (no keyLen guard): expected counterexample NeverPanics (documentation / non-vacuity)"),
     }
     if ctx.thorough:
         jobs["int32"] = dict(cfg="KdfScrypt_Int32.cfg", workers=6, note="32-bit int platforms (maxInt = 2^31-1): model-checked only")
+        jobs["bnd32"] = dict(cfg="KdfScrypt_Bnd32.cfg", workers=4, note="32-bit int boundary values (MinInt32 .. MaxInt32): model-checked only")
     if ctx.replay:
         d = json.load(open(ctx.replay))["violation"]["detail"]
 
@@ -75,7 +80,7 @@ def run(ctx):
     for k, r in res.items():
         if not r.ok:
             raise vlib.Infra("design model KdfScrypt_MC/%s: %s violated (model-level, not a verdict):\n%s" % (k, r.violated, (r.cex or "")[:4000]))
-    cases = res["small"].traces + res["big"].traces
+    cases = res["small"].traces + res["big"].traces + res["bnd"].traces
     if len(cases) < 1000:
         raise vlib.Infra("generator produced too few cases: %d" % len(cases))
     ctx.log("TLC: %d tuples emitted" % len(cases))
@@ -83,6 +88,12 @@ def run(ctx):
     r = ctx.go_test("c16", "TestReplay", cases=cases, timeout=1500, env={"VERIF_C16_SAMPLES": samples})
     ctx.absorb(r)
     ctx.log("replay: %s" % json.dumps(r.get("extra", {}).get("outcomes")))
+    # vacuity guard: both ends of the int range must have been run on the real scrypt.Key for every parameter
+    ends = r.get("extra", {}).get("int_range_ends_run") or {}
+    missing = [k for k in ("N=MinInt", "N=MaxInt", "r=MinInt", "r=MaxInt", "p=MinInt", "p=MaxInt", "keyLen=MinInt", "keyLen=MaxInt") if not ends.get(k)]
+    if missing:
+        raise vlib.Infra("boundary values not exercised on the real scrypt.Key: %s" % ", ".join(missing))
+    ctx.log("int range ends run: %s" % json.dumps(ends, sort_keys=True))
     # optional third opinion: OpenSSL's scrypt through hashlib
     if os.path.exists(PY) and os.path.exists(samples):
         p = subprocess.run([PY, "-c", PYCHK, samples], capture_output=True, text=True, timeout=600)
